@@ -232,6 +232,10 @@ var situations = []*situation{
 		applies: func(t *tran, _ *kind) bool { return t.family != "inproc" }},
 	// the accept loop is busy (parked in the Attaching hook of one pipe) while a second peer has
 	// completed the transport level handshake and waits to be accepted
+	// the WebSocket listener's handler is mounted on the application's own HTTP server
+	// (GetOption(OptionWebSocketHandler)): the listener runs no server of its own
+	{id: "j-handler", scenario: "close-handler-mode", roles: []string{"L"}, variants: func(*tran) []string { return []string{"idle", "recv"} },
+		applies: func(t *tran, _ *kind) bool { return t.http }},
 	{id: "i-pending", scenario: "close-pending-accept", roles: []string{"L"}, variants: func(*tran) []string { return []string{"1", "3"} }, // peers waiting to be accepted
 		applies: func(_ *tran, k *kind) bool { return k.name != "pair" && k.name != "xpair" && k.name != "pair1" && k.name != "xpair1" }},
 }
